@@ -136,10 +136,24 @@ def comment_variants(model):
                 yield 'comment', '%s@%d:%r' % (path, i, ins), specs, None
         for i, (t, cont) in enumerate(lines):
             if not t.strip():
+                if cont and i + 1 < len(lines) and lines[i + 1][1]:
+                    # an empty line inside a doc string (paragraph break): blanks on it do not make it text
+                    for ws in ('            ', '\t'):
+                        new = texts[:i] + [ws] + texts[i + 1:]
+                        specs = [(p, _join(new) if j == k else _join([t2 for t2, _ in ls])) for j, (p, ls) in enumerate(files)]
+                        yield 'doc-blank', '%s@%d:%r' % (path, i, ws), specs, None
                 continue
             # a line that opens or continues a multi-line string cannot take a trailer (it would be text)
             opens = (i + 1 < len(lines) and lines[i + 1][1])
             if cont or opens:
+                # inside a multi-line doc string only blanks can be appended: trailing whitespace of a doc line is not part of the doc
+                last = not (i + 1 < len(lines) and lines[i + 1][1])
+                for tr in ('  ', '\t'):
+                    if last and cont:
+                        continue        # the closing line ends with the quote: blanks after it are ordinary trailing whitespace (covered)
+                    new = texts[:i] + [t + tr] + texts[i + 1:]
+                    specs = [(p, _join(new) if j == k else _join([t2 for t2, _ in ls])) for j, (p, ls) in enumerate(files)]
+                    yield 'doc-trailer', '%s@%d:%r' % (path, i, tr), specs, None
                 continue
             for tr in TRAILERS:
                 new = texts[:i] + [t + tr] + texts[i + 1:]
